@@ -367,7 +367,9 @@ impl Scorer<Vec<bool>> for RecScorer {
 
 struct GenomeMaker {
     len: usize,
-    fail: bool,
+    /// bit i set: the i-th application fails (after drawing its genome)
+    fail_mask: u8,
+    calls: std::cell::Cell<u32>,
 }
 impl ec_core::operator::Composable for GenomeMaker {}
 impl<'a> Operator<&'a Vec<u8>> for GenomeMaker {
@@ -375,7 +377,9 @@ impl<'a> Operator<&'a Vec<u8>> for GenomeMaker {
     type Error = ProbeFail;
     fn apply<R: rand::Rng + ?Sized>(&self, _pop: &'a Vec<u8>, rng: &mut R) -> Result<Vec<bool>, ProbeFail> {
         let g: Vec<bool> = StandardUniform.to_collection_generator(self.len).sample(rng);
-        if self.fail {
+        let n = self.calls.get();
+        self.calls.set(n + 1);
+        if n < 8 && self.fail_mask >> n & 1 == 1 {
             Err(ProbeFail(7))
         } else {
             Ok(g)
@@ -412,13 +416,29 @@ fn generator_case(seed: u64, len: usize, fail: bool) -> Result<(), Fail> {
     );
     // GenomeScorer
     let scorer = RecScorer { seen: RefCell::new(vec![]) };
-    let gs = GenomeScorer::new(GenomeMaker { len, fail }, &scorer);
+    // a failing maker fails always, or only on its first application(s)
+    let fail_mask: u8 = if !fail { 0 } else if seed % 2 == 0 { 0xFF } else { [0b001, 0b011, 0b101][(seed / 2 % 3) as usize] };
+    let gs = GenomeScorer::new(GenomeMaker { len, fail_mask, calls: std::cell::Cell::new(0) }, &scorer);
     let pop: Vec<u8> = vec![1, 2, 3];
     let mut r3 = base.clone();
     let out = gs.apply(&pop, &mut r3);
-    if fail {
+    if fail && fail_mask == 0xFF {
         ensure!(out.is_err(), "GenomeScorer/failure-swallowed", "the genome maker failed but GenomeScorer returned an individual");
         ensure!(scorer.seen.borrow().is_empty(), "GenomeScorer/scored-after-failure", "the scorer ran although the genome maker failed");
+    } else if fail {
+        // the maker fails on its first application and would succeed later: whether the failure is reported (it is)
+        // is C14's business; here: an individual that does come back carries the result of *its* genome
+        if let Ok(ind) = out {
+            let own: TestResults<Score<i64>> = ind.genome.iter().map(|b| i64::from(*b)).collect();
+            ensure!(
+                ind.test_results == own && scorer.seen.borrow().last() == Some(&ind.genome),
+                "GenomeScorer/result-not-for-its-genome",
+                "after a failed first attempt of the genome maker the individual carries genome {:?} with results {:?}; the scorer was shown {:?}",
+                ind.genome,
+                ind.test_results,
+                scorer.seen.borrow()
+            );
+        }
     } else {
         let Ok(ind) = out else {
             return Err(Fail::new("GenomeScorer/spurious-error", "GenomeScorer failed although the genome maker succeeded"));
